@@ -105,6 +105,16 @@ def pure_os(**extra):
     return o
 
 
+def pure_sys():
+    """A stand-in for the sys module: just names for the standard streams (print(..., file=sys.stderr) in evaluated code)."""
+    class _Sys(Model):
+        stderr = '<stderr>'
+        stdout = '<stdout>'
+        argv = ['prog']
+        version_info = (3, 12)
+    return _Sys()
+
+
 def _is_model(o):
     return isinstance(o, Model) or (isinstance(o, type) and issubclass(o, Model))
 
@@ -539,6 +549,10 @@ class Interp:
             raise Unsupported('%s on %s' % (fn.id, type(o).__name__))
         if full in SAFE_ATTR_CALLS:
             return SAFE_ATTR_CALLS[full](*args, **kwargs)
+        if isinstance(fn, ast.Name) and fn.id == 'eval' and len(args) == 1 and isinstance(args[0], str) and args[0].isidentifier() \
+                and 'eval' not in env:
+            # eval('ClassName'): the only use in this code base - a name looked up in the module (never evaluated for real)
+            return self.expr(ast.Name(id=args[0], ctx=ast.Load()), {}, mod)
         if isinstance(fn, ast.Name) and fn.id == 'isinstance' and len(args) == 2 and 'isinstance' not in env:
             kinds = args[1] if isinstance(args[1], tuple) and not (args[1] and args[1][0] == '#sym') else (args[1],)
             for k in kinds:
@@ -572,6 +586,10 @@ class Interp:
                     if fn.attr in ('values', 'keys', 'items', 'get', 'pop', 'update', 'setdefault', '__contains__'):
                         # a repo class that derives from dict / OrderedDict: its entries live in o.items
                         return getattr(o.items, fn.attr)(*args, **kwargs)
+                    if all(b.split('.')[-1] in ('object', 'dict', 'OrderedDict') for b in self.prog.external_bases(o.cls.qn)):
+                        r = Raised('no method %s on %s' % (fn.attr, o.cls.name))     # the class is fully known: an AttributeError
+                        r.excname = 'AttributeError'
+                        raise r
                     raise Unsupported('method %s of %s' % (fn.attr, o.cls.name))
                 return self.invoke(m, args, kwargs, o)
             for t, names in SAFE_METHODS.items():
@@ -581,6 +599,11 @@ class Interp:
                 m = self.prog.lookup_method(o[1].target, fn.attr)
                 if m is not None:
                     return self.invoke(m, args, kwargs, None)
+            if o in (dict, object) and fn.attr == '__init__' and args and isinstance(args[0], Obj):
+                # dict.__init__(self, ...) / object.__init__(self) of a repo class deriving from a built-in
+                if o is dict:
+                    args[0].items.update(*args[1:], **kwargs)
+                return None
             raise Unsupported('call %s on %s' % (fn.attr, type(o).__name__))
         f = self.expr(fn, env, mod)
         return self.apply(f, args, kwargs)
